@@ -127,6 +127,11 @@ def ep_population(rng, i):
         t2[:len(t2) - sum(l.n_top(n_ids) - l.n_base(n_ids)
                           for l in leaves)] *= 1.2
         m.sample(t2, n_samples=6, seed=11, **kw2)
+    if not kw and (i // len(kinds)) % 2 == 1:
+        # (parameters, n_samples, seed) by position
+        return ('population:' + (k if isinstance(k, str) else code),
+                lambda seed: m.sample(top, 6, seed),
+                k == 'composed', has_rand, vary)
     return ('population:' + (k if isinstance(k, str) else code),
             lambda seed: m.sample(top, n_samples=6, seed=seed, **kw),
             k == 'composed', has_rand, vary)
